@@ -247,6 +247,8 @@ def months2days(year: int, month: int, months_delta: int) -> int:
 def round_number(value: Union[float, int, Decimal]) -> Union[float, int, Decimal]:
     if math.isnan(value) or math.isinf(value):
         return value
+    elif isinstance(value, float) and abs(value) >= 2 ** 52:
+        return value  # no fraction digits (and too many integer digits for the decimal context)
 
     number = Decimal(value)
     if number > 0:
